@@ -493,7 +493,9 @@ hwloc_backend_distances_add_commit(hwloc_topology_t topology,
     goto err;
   }
 
-  if (topology->grouping && (flags & HWLOC_DISTANCES_ADD_FLAG_GROUP) && !dist->different_types) {
+  if (topology->grouping && (flags & HWLOC_DISTANCES_ADD_FLAG_GROUP) && !dist->different_types
+      /* only objects that have cpusets can be grouped by inserting a Group by cpuset */
+      && (hwloc__obj_type_is_normal(dist->unique_type) || hwloc__obj_type_is_memory(dist->unique_type))) {
     float full_accuracy = 0.f;
     float *accuracies;
     unsigned nbaccuracies;
